@@ -320,46 +320,29 @@ fn sets_modelled(sch: &Schema, sets: &[(usize, Expr)]) -> bool {
         && sets.iter().enumerate().all(|(i, (c, _))| sets[i + 1..].iter().all(|(d, _)| d != c))
         && (!sch.keyed() || sets.iter().all(|(c, _)| *c != 0))
 }
-enum IRes { Val(Val), Err, Un }
-fn ieval(e: &Expr, r: &[Val]) -> IRes {
-    match e {
-        Expr::Lit(v) => IRes::Val(v.clone()),
-        Expr::Col(j) => match r.get(*j) { Some(v) => IRes::Val(v.clone()), None => IRes::Un },
-        Expr::Arith(op, a, b) => match (&**a, &**b) {
-            (Expr::Col(j), Expr::Lit(Val::Int(k))) => match r.get(*j) {
-                Some(Val::Int(x)) => match match op { ArithOp::Add => x.checked_add(*k), ArithOp::Sub => x.checked_sub(*k), ArithOp::Mul => x.checked_mul(*k) } { Some(z) => IRes::Val(Val::Int(z)), None => IRes::Un },
-                Some(Val::Null) => IRes::Err,
-                _ => IRes::Un,
-            },
-            _ => IRes::Un,
-        },
-        _ => IRes::Un,
-    }
-}
-enum RRes { Ok(Vec<Val>), Err, Un }
+enum RRes { Ok(Vec<Val>), Un }
+/// every SET expression is evaluated on the old row, arithmetic over NULL yields NULL (the
+/// reference `eval`); None = outside the model (overflow ...)
 fn new_row(sets: &[(usize, Expr)], old: &[Val]) -> RRes {
     let assoc = |i: usize| sets.iter().find(|(c, _)| *c == i).map(|(_, e)| e);
-    let src: Vec<Val> = old.iter().enumerate().map(|(i, v)| match assoc(i) { Some(Expr::Lit(x)) => x.clone(), _ => v.clone() }).collect();
     let mut out = vec![];
-    let (mut err, mut un) = (false, false);
     for (i, v) in old.iter().enumerate() {
-        match assoc(i) { None => out.push(v.clone()), Some(e) => match ieval(e, &src) { IRes::Val(x) => out.push(x), IRes::Err => err = true, IRes::Un => un = true } }
+        match assoc(i) { None => out.push(v.clone()), Some(e) => match eval(e, old) { Some(x) => out.push(x), None => return RRes::Un } }
     }
-    if un { RRes::Un } else if err { RRes::Err } else { RRes::Ok(out) }
+    RRes::Ok(out)
 }
 #[derive(PartialEq)]
-enum URes { Ok(Vec<Vec<Val>>), EvalErr, NnErr, Un }
+enum URes { Ok(Vec<Vec<Val>>), NnErr, Un }
 fn new_rows(sch: &Schema, sets: &[(usize, Expr)], sel: &[Ent]) -> URes {
     let mut news = vec![];
-    let mut first: Option<URes> = None;
+    let mut bad = false;
     for e in sel {
         match new_row(sets, &e.row) {
             RRes::Un => return URes::Un,
-            RRes::Err => { if first.is_none() { first = Some(URes::EvalErr); } }
-            RRes::Ok(r2) => { if !nn_ok(sch, &r2) { if first.is_none() { first = Some(URes::NnErr); } } else { news.push(r2); } }
+            RRes::Ok(r2) => { if !nn_ok(sch, &r2) { bad = true; } else { news.push(r2); } }
         }
     }
-    first.unwrap_or(URes::Ok(news))
+    if bad { URes::NnErr } else { URes::Ok(news) }
 }
 
 impl TState {
@@ -371,15 +354,12 @@ impl TState {
         let v = pk_literal(w)?;
         let id = self.kidx.iter().find(|(k, _)| *k == v)?.1;
         let e = self.ents.iter().find(|e| e.id == id)?;
-        if e.row[0] == v { Some(e.clone()) } else { None }
+        if e.row[0] == v && !e.del { Some(e.clone()) } else { None }
     }
     pub fn select(&self, sch: &Schema, w: &Option<Expr>) -> Vec<Ent> {
-        match self.pk_target(sch, w) { Some(e) => vec![e], None => self.ents.iter().filter(|e| wpass(w, &e.row)).cloned().collect() }
+        match self.pk_target(sch, w) { Some(e) => vec![e], None => self.ents.iter().filter(|e| !e.del && wpass(w, &e.row)).cloned().collect() }
     }
     fn where_modelled(&self, w: &Option<Expr>) -> bool { self.ents.iter().all(|e| wsel(w, &e.row).is_some()) }
-    fn onepass(&self, sch: &Schema, sets: &[(usize, Expr)], w: &Option<Expr>) -> bool {
-        self.pk_target(sch, w).is_some() && !sch.has_text() && sets.iter().all(|(_, e)| !set_has_col(e))
-    }
     fn ins_loop(&mut self, sch: &Schema, rows: &[Vec<Val>]) -> (bool, i64) {
         let mut n = 0;
         for r in rows {
@@ -403,36 +383,30 @@ impl TState {
             Stmt::Delete { w, ret } => {
                 if !self.where_modelled(w) { return (0, MRes::Unmod); }
                 let sel = self.select(sch, w);
-                let k = if sel.iter().any(|e| e.del) { 1 } else { 0 };
                 for e in self.ents.iter_mut() { if sel.iter().any(|s| s.id == e.id) { e.del = true; } }
                 if sch.keyed() { self.kidx.retain(|(key, _)| !sel.iter().any(|s| !s.row[0].is_null() && s.row[0] == *key)); }
                 let n = sel.len() as i64;
                 self.rcount = (self.rcount - n).max(0);
-                (k, MRes::Aff(n, if *ret { Some(sel.iter().map(|e| e.row.clone()).collect()) } else { None }))
+                (0, MRes::Aff(n, if *ret { Some(sel.iter().map(|e| e.row.clone()).collect()) } else { None }))
             }
             Stmt::Update { sets, w, ret } => {
                 if !self.where_modelled(w) || !sets_modelled(sch, sets) { return (0, MRes::Unmod); }
                 let sel = self.select(sch, w);
-                let op = self.onepass(sch, sets, w);
-                let mix = sets.iter().any(|(c, e)| !set_has_col(e) && sets.iter().any(|(_, q)| set_has_col(q) && reads_col(q, *c)));
-                let nr = new_rows(sch, sets, &sel);
-                let k = if sel.iter().any(|e| e.del) { 2 } else if *ret && op { 5 } else if mix { 6 } else if nr == URes::EvalErr { 7 } else { 0 };
-                match nr {
-                    URes::Un => (k, MRes::Unmod),
-                    URes::EvalErr | URes::NnErr => (k, MRes::Err),
+                match new_rows(sch, sets, &sel) {
+                    URes::Un => (0, MRes::Unmod),
+                    URes::NnErr => (0, MRes::Err),
                     URes::Ok(news) => {
                         for (s, r2) in sel.iter().zip(news.iter()) {
                             for e in self.ents.iter_mut() { if e.id == s.id { e.del = false; e.row = r2.clone(); } }
                         }
-                        (k, MRes::Aff(sel.len() as i64, if op || !*ret { None } else { Some(news) }))
+                        (0, MRes::Aff(sel.len() as i64, if *ret { Some(news) } else { None }))
                     }
                 }
             }
             Stmt::Truncate => {
-                let k = if self.has_tomb() { 3 } else { 0 };
-                let n = self.ents.len() as i64;
+                let n = self.ents.iter().filter(|e| !e.del).count() as i64;
                 self.ents.clear(); self.kidx.clear(); self.rcount = 0;
-                (k, MRes::Aff(n, None))
+                (0, MRes::Aff(n, None))
             }
             Stmt::Missing(_) => (0, MRes::Err),
         }
@@ -722,7 +696,6 @@ pub fn gen_history(rng: &mut Rng, prof: Profile, len: usize) -> (Schema, Vec<Stm
             if !defined(&sch, &st, &s) { continue; }
             let (k, _) = st.clone().step(&sch, &s);
             if prof == Profile::Clean && k != 0 { continue; }
-            if prof == Profile::Failing && (k == 1 || k == 2 || k == 3) { continue; }
             chosen = Some(s);
             break;
         }
@@ -815,8 +788,8 @@ fn emit(w: &mut CaseWriter, sut: &mut Sut, prop: &str, sch: &Schema, h: &[Stmt],
 fn plan(prop: &str, thorough: bool) -> Vec<(Profile, &'static str, usize, usize, usize)> {
     // (profile, stream name, histories, min len, max len)
     match (prop, thorough) {
-        ("C05", false) => vec![(Profile::Clean, "clean", 130, 4, 22), (Profile::Dirty, "dirty", 40, 4, 18)],
-        ("C05", true) => vec![(Profile::Clean, "clean", 2600, 4, 60), (Profile::Dirty, "dirty", 800, 4, 40)],
+        ("C05", false) => vec![(Profile::Clean, "clean", 90, 4, 22), (Profile::Dirty, "dirty", 80, 4, 20)],
+        ("C05", true) => vec![(Profile::Clean, "clean", 1700, 4, 60), (Profile::Dirty, "dirty", 1700, 4, 50)],
         (_, false) => vec![(Profile::Failing, "failing", 110, 3, 14), (Profile::Clean, "clean", 30, 3, 14), (Profile::Dirty, "dirty", 20, 3, 14)],
         (_, true) => vec![(Profile::Failing, "failing", 2400, 3, 30), (Profile::Clean, "clean", 500, 3, 30), (Profile::Dirty, "dirty", 400, 3, 30)],
     }
